@@ -5,18 +5,21 @@ CONSTANTS
   Targets <- T_tiny
   QPaths <- Q_tiny
   ExtPaths <- X_tiny
-  Kinds = {"is_file", "list_dir", "read"}
+  Kinds = {"list_dir", "read"}
   Cmps = {"METADATA", "HASH"}
   Contents = {"c1", "c2"}
   Sizes = {4}
-  Mts = {1, 2}
+  Mts = {1}
   FNames0 = {"f"}
   FNames1 = {}
   VerVals <- V_tiny
   MaxStmts = 2
+  MaxRootStmts = 1
+  RootQueries = FALSE
   MaxBuilds = 2
   MaxExt = 1
   MaxCleans = 1
+  AllowKeepMeta = FALSE
 INVARIANT NoViolation
 INVARIANT InvView
 INVARIANT InvAtomic
